@@ -99,7 +99,7 @@ def flatten(o):
             "lin_vjp": o["adj"]["lin_vjp"], "lin_jvp": o["adj"]["lin_jvp"],
             "lin0_vjp": o["adj"].get("lin0_vjp", 0), "lin0_jvp": o["adj"].get("lin0_jvp", 0), "vjp_late": bool(v.get("late")),
             "vjp_primal_eq": v["primal_eq"], "jvp_primal_eq": j["primal_eq"], "box": o["primal"]["box"],
-            "intact": o["primal"]["intact"], "nest_eq": o["primal"]["nest_eq"], "raw_eq": o["primal"].get("raw_eq", True),
+            "intact": o["primal"]["intact"], "nest_eq": o["primal"]["nest_eq"], "raw_eq": o["primal"].get("raw_eq", True), "ops_bad": o.get("ops_bad", 0),
             "second_checked": bool(o.get("second", {}).get("checked")), "second_nbad": o.get("second", {}).get("nbad", 0),
             "second_sym_bad": o.get("second", {}).get("sym_bad", 0), "second_num_bad": o.get("second", {}).get("num_bad", 0),
             "second_box": any(v_ == "box" for v_ in o.get("second", {}).get("modes", {}).values())}
@@ -121,6 +121,8 @@ def mirror(prop, r):
             fails.append("reverse mode differs from conj(J_R^T conj g) (RevExact)")
         if not fwd:
             fails.append("forward mode differs from J_R v or has the wrong structure (FwdExact)")
+    if prop == "C09" and r["ops_bad"]:
+        fails.append("jacobian() / grad() of this configuration differ from the rows of its VJP (complex input not kept complex?)")
     if prop == "C11" and (r["vjp_raised"] or r["jvp_raised"]):
         fails.append("differentiating through an index expression NumPy accepts raised")
     if prop == "C12":
@@ -448,6 +450,11 @@ def c19_history(verdict, tier, seed):
             chosen = stratified(chosen, 260 if quick else 1200, rng) + stratified(allc, 60, rng)
         else:
             chosen = stratified(allc, 40 if quick else 200, rng)
+            if fam in ("special", "join"):
+                # calls that warn: a rule that divides by a result that is exactly 0 (std / var of equal entries), the slow-path hint of r_ / c_ -
+                # with warnings promoted to errors these raise INSIDE a rule or a wrapper, the place where state is most easily left behind
+                seen_ = {json.dumps(c, sort_keys=True) for c in chosen}
+                chosen += [c for c in allc if c["prim"] in ("std", "var", "r_", "c_") and json.dumps(c, sort_keys=True) not in seen_][:60]
         cfgs += [dict(c, dk=seed % 7) for c in chosen]
     rng.shuffle(cfgs)
     for i, c in enumerate(cfgs):
@@ -459,14 +466,19 @@ def c19_history(verdict, tier, seed):
     # the slow-path hint of r_/c_, the independence warning - and NumPy's) in both orders; a warning that is only issued the first time
     # makes the outcome of a later call depend on the earlier one
     wfams = ("join", "rearr", "reduce", "where", "index", "special", "extend")
-    wcfgs = [c for c in cfgs if c["fam"] in wfams][:400 if quick else 2000]
-    wa, _ = vlib.parallel_replay("rule_replay.py", wcfgs, nproc=1, tag="hist-wa", extra_args=("--warnings-error",))
-    wb, _ = vlib.parallel_replay("rule_replay.py", wcfgs[::-1], nproc=1, tag="hist-wb", extra_args=("--warnings-error",))
+    wcfgs = [c for c in cfgs if c["fam"] in wfams]
+    wcfgs = [c for c in wcfgs if c["prim"] in ("std", "var", "r_", "c_")] + [c for c in wcfgs if c["prim"] not in ("std", "var", "r_", "c_")][:400 if quick else 2000]
+    rng.shuffle(wcfgs)
+    # ... and with a fault injected into every backward rule: the cotangent handed to the VJP function raises at its 1st / 2nd / 3rd
+    # NumPy operation (harness/rule_replay.py: BombArray); the ambient NumPy state after each configuration is part of its signature
+    wa, _ = vlib.parallel_replay("rule_replay.py", wcfgs, nproc=1, tag="hist-wa", extra_args=("--warnings-error", "--faults"))
+    wb, _ = vlib.parallel_replay("rule_replay.py", wcfgs[::-1], nproc=1, tag="hist-wb", extra_args=("--warnings-error", "--faults"))
 
     def sig(o):
         if o["status"] != "ok":
             return o["status"].split(":")[0]
-        return "%s/%s/%s" % (o["vjp"].get("digest") or o["vjp"].get("raised"), o["jvp"].get("digest") or o["jvp"].get("raised"), o.get("npstate", ""))
+        return "%s/%s/%s%s" % (o["vjp"].get("digest") or o["vjp"].get("raised"), o["jvp"].get("digest") or o["jvp"].get("raised"), o.get("npstate", ""),
+                               "/late" if o["vjp"].get("late") else "")
     sb = {o["id"]: sig(o) for o in b}
     rows = [{"id": o["id"], "first": sig(o), "second": sb.get(o["id"], "missing")} for o in a]
     nplain = len(rows)
